@@ -137,7 +137,7 @@ type SimRunner struct {
 	LoopExited  bool
 	LoopSeen    bool
 	holdCond    *sync.Cond
-	wg          sync.WaitGroup
+	active      int
 }
 
 var _ taskctl.Runner = &SimRunner{}
@@ -161,8 +161,17 @@ func copyAny(m map[string]interface{}) map[string]interface{} {
 // Run mirrors taskctl.TaskRunner.Run / execute as far as prunner can observe it.
 func (r *SimRunner) Run(t *task.Task) error {
 	w := r.w
-	r.wg.Add(1)
-	defer r.wg.Done()
+	// (the real runner counts its Runs in a sync.WaitGroup; a counter under the harness lock is used here,
+	// because Add racing the wake-up of Wait panics - see DESIGN.md, finding on TaskRunner.Cancel)
+	w.mu.Lock()
+	r.active++
+	w.mu.Unlock()
+	defer func() {
+		w.mu.Lock()
+		r.active--
+		r.holdCond.Broadcast()
+		w.mu.Unlock()
+	}()
 
 	rec := &RunRec{Task: t.Name, Commands: append([]string(nil), t.Commands...), AllowFail: t.AllowFailure, ch: make(chan Outcome, 1)}
 	if t.Env != nil {
@@ -276,8 +285,10 @@ func (r *SimRunner) Cancel() {
 		r.canceling = true
 		close(r.cancelCh)
 	}
+	for r.active > 0 {
+		r.holdCond.Wait()
+	}
 	w.mu.Unlock()
-	r.wg.Wait()
 }
 
 func (r *SimRunner) Finish() {
@@ -333,6 +344,7 @@ type JobRec struct {
 	ShutdownSeq     int                    // event seq of the shutdown stimulus if the job was waiting then
 	CancelPermitted bool                   // Cancel() may (but need not) reach the runner, e.g. forced shutdown
 	ForcedSeq       int                    // event seq of a forced shutdown that found the job running
+	RacedShutdown   bool                   // accepted by a request that raced the start of a shutdown
 	MaybePurged     bool                   // its pipeline was undefined at some point after the accept: any save may purge the job, nothing is promised
 	FailFast        bool                   // a task failed while fail-fast was in force
 	FailSeq         int                    // event seq of the first non-allowed task failure delivered
